@@ -5,6 +5,7 @@ once per generated configuration.
 A scenario is one line:   <conf> <req> <req> ...
   <conf>  the generated squid.conf section: lines separated by `;`, the words of a line by `,`  (`-` = empty section)
   <req>   METHOD|client address|URL host|URL port or -|addresses the host resolves to, joined by + (or -)|PTR name of a numeric host or -
+          optionally followed by |address to send as X-Forwarded-For
 The resolution fields repeat what the universe says (the Lean model has no other source for them); a line whose fields disagree
 with the universe is refused (`bad-universe`).
 
@@ -38,7 +39,7 @@ LOCK_PATH = "/tmp/verif-c45-universe.lock"
 
 def resolve(host):
     """-> (addresses, ptr name or None) the universe gives for a URL host (as written in the URL, any case)"""
-    h = host.lower()
+    h = host.lower().rstrip(".")      # AnyP::Uri::parse removes trailing dots
     if re.fullmatch(r"\d+\.\d+\.\d+\.\d+", h):
         ptr = DNS_PTR.get(h)
         for ip, name in HOSTS_FILE:
@@ -205,21 +206,22 @@ def parse_line(line):
     reqs = []
     for t in toks[1:]:
         f = t.split("|")
-        if len(f) != 6 or not f[0] or not f[2]:
+        if len(f) not in (6, 7) or not f[0] or not f[2]:
             return None
-        m, src, host, port, ips, rdns = f
+        m, src, host, port, ips, rdns = f[:6]
         if not re.fullmatch(r"\d+\.\d+\.\d+\.\d+", src):
             return None
         if port != "-" and not re.fullmatch(r"0|[1-9][0-9]*", port):
             return None
         reqs.append({"method": m, "src": src, "host": host, "port": None if port == "-" else int(port),
-                     "ips": [] if ips == "-" else ips.split("+"), "rdns": None if rdns == "-" else rdns})
+                     "ips": [] if ips == "-" else ips.split("+"), "rdns": None if rdns == "-" else rdns,
+                     "xff": f[6] if len(f) == 7 else None})
     return conf, reqs
 
 
-def req_token(method, src, host, port):
+def req_token(method, src, host, port, xff=None):
     ips, ptr = resolve(host)
-    return "%s|%s|%s|%s|%s|%s" % (method, src, host, "-" if port is None else port, "+".join(ips) or "-", ptr or "-")
+    return "%s|%s|%s|%s|%s|%s" % (method, src, host, "-" if port is None else port, "+".join(ips) or "-", ptr or "-") + ("|" + xff if xff else "")
 
 
 def conf_token(lines):
@@ -461,6 +463,7 @@ class Harness:
         self.batch = batch
         self.workers = workers
         self.crashes = 0
+        self.reruns = 0
         self.lockf = open(LOCK_PATH, "a+")
         t0 = time.time()
         while True:
@@ -510,7 +513,8 @@ class Harness:
         try:
             if method.upper() == "CONNECT":
                 p = 443 if port is None else port
-                c.send(("%s %s:%d HTTP/1.1\r\nHost: %s:%d\r\n\r\n" % (method, host, p, host, p)).encode("latin-1"))
+                xh = "X-Forwarded-For: %s\r\n" % r["xff"] if r.get("xff") else ""
+                c.send(("%s %s:%d HTTP/1.1\r\nHost: %s:%d\r\n%s\r\n" % (method, host, p, host, p, xh)).encode("latin-1"))
                 head, c.rest = rig.read_head(c.s, c.rest, c.timeout)       # a CONNECT reply has no body: head only
                 resp = None
                 if head is not None:
@@ -525,6 +529,8 @@ class Harness:
                     ok_body = False
             else:
                 head = ["%s http://%s/s%s/p HTTP/1.1" % (method, hostport, sid), "Host: " + hostport]
+                if r.get("xff"):
+                    head.append("X-Forwarded-For: " + r["xff"])
                 body = b""
                 if method.upper() in ("POST", "PUT", "PATCH"):
                     body = b"abc"
@@ -557,7 +563,8 @@ class Harness:
         for r in reqs:
             ips, ptr = resolve(r["host"])
             if ips != r["ips"] or ptr != r["rdns"] or r["src"] not in SRCS or (r["port"] is not None and r["port"] not in PORTS) \
-                    or r["host"].lower() not in all_hosts():
+                    or r["host"].lower().rstrip(".") not in all_hosts() or r["host"].startswith(".") or ".." in r["host"] \
+                    or (r["xff"] is not None and not re.fullmatch(r"\d+\.\d+\.\d+\.\d+", r["xff"])):
                 return {"out": "bad-universe"}
         if conf_scope(conf) != "ok":
             return {"out": "unmodelled"}
@@ -625,6 +632,9 @@ class Harness:
                         o = "odd:io-%s" % type(e).__name__
                     if not o.startswith("odd") or not sq.alive():
                         break
+                    time.sleep(0.3 * rig.VERIF_SLOW)
+                if o.startswith("odd"):
+                    self._debug(sq, r, o)
                 outs.append(o)
             if not sq.alive():
                 probs = sq.problems()
@@ -633,19 +643,44 @@ class Harness:
             pass
         return " ".join(outs) if outs else "none"
 
-    def run(self, lines):
+    def _debug(self, sq, r, o):
+        """an observation outside the vocabulary: keep what squid logged (out/C45-odd.log), the observation itself stays canonical"""
+        try:
+            os.makedirs(os.path.join(VERIF, "out"), exist_ok=True)
+            with open(os.path.join(VERIF, "out", "C45-odd.log"), "a") as f:
+                f.write("==== %s pid=%d %s %r alive=%s port=%d\n%s\n---- stderr\n%s\n---- access\n%s\n" % (
+                    time.strftime("%H:%M:%S"), os.getpid(), o, r, sq.alive(), sq.port, sq.cache_log()[-2500:],
+                    open(os.path.join(sq.dir, "stderr.log"), errors="replace").read()[-1500:], sq.access_log()[-600:]))
+        except OSError:
+            pass
+
+    def _run_batch(self, lines):
         from concurrent.futures import ThreadPoolExecutor
+        jobs = [self.prepare(l) for l in lines]
+        for j in jobs:
+            self.await_ready(j)
+        with ThreadPoolExecutor(max_workers=self.workers) as ex:
+            outs = list(ex.map(self.execute, jobs))
+        for j in jobs:
+            if "sq" in j:
+                j["sq"].stop(kill=True)
+        return outs
+
+    def run(self, lines):
         res = []
         for i in range(0, len(lines), self.batch):
-            jobs = [self.prepare(l) for l in lines[i:i + self.batch]]
-            for j in jobs:
-                self.await_ready(j)
-            with ThreadPoolExecutor(max_workers=self.workers) as ex:
-                outs = list(ex.map(self.execute, jobs))
-            for j in jobs:
-                if "sq" in j:
-                    j["sq"].stop(kill=True)
-            res.extend(outs)
+            res.extend(self._run_batch(lines[i:i + self.batch]))
+        # flake guard: a scenario with an observation outside the vocabulary (or a squid that died / did not start) is run again
+        # with a fresh squid; it is reported only when it shows up three times
+        for attempt in range(2):
+            bad = [k for k, o in enumerate(res) if "odd:" in o or o.startswith("abort")]
+            if not bad:
+                break
+            self.reruns += len(bad)
+            for i in range(0, len(bad), self.batch):
+                idx = bad[i:i + self.batch]
+                for k, o in zip(idx, self._run_batch([lines[k] for k in idx])):
+                    res[k] = o
         return res
 
     def close(self):
